@@ -29,12 +29,14 @@ def encode_vars(variables, ns):
     return '\x1e'.join(recs)
 
 
-def call_xpath(drv, doc, expr, ctx='/', ctxlist=None, ns=None, variables=None, entry='generic'):
+def call_xpath(drv, doc, expr, ctx='/', ctxlist=None, ns=None, variables=None, entry='generic', strprefix=None):
     ns = ns or {}
     fields = dict(cmd='xpath', doc=doc, expr=expr, ctx=ctx, entry=entry,
                   ns='\n'.join('%s=%s' % kv for kv in ns.items()), vars=encode_vars(variables or {}, ns))
     if ctxlist is not None:
         fields['ctxlist'] = ';'.join(ctxlist)
+    if strprefix:
+        fields['strprefix'] = strprefix
     rep = drv.call(**fields)
     out = {}
     for k, v in rep.items():
